@@ -19,7 +19,7 @@ use num::{One, Signed, Zero};
 use std::panic::{catch_unwind, AssertUnwindSafe};
 use std::time::Instant;
 
-pub const RULE: &str = "decider 1 (taint): the C14 scalar type logs every to_f64 call with its dependency set; with debug output off every narrowed value may depend on nothing but the gamma coordinate 2E-2 (never on another coordinate, never on user masses/shifts) and every value widened back from f64 with dependencies is the gamma variate. decider 2 (precision gain): a double-double scalar (~106 bits) is pushed through the sampler on well-conditioned points and the outputs are checked with exact rational arithmetic at 1e-26*kappa instead of the 1e-13*kappa reachable in f64: u vs det(l_matrix), inverse*L-I, q_transposed*(k+shift) - sqrt(v/2lambda) q, shift vs L^-1 u_vectors, and agreement of u, v, jacobian between two routings of one point; lambda is the documented exception (its low word is 0); the L matrix against the sector formula evaluated in double-double; ill-conditioned points by the precision gain over the f64 run; decider 4: decompose_for_tropical itself on double-double copies of the C15 matrix classes (incl. weakly joined blocks) against exact rational inverse/determinant at 1e-26*cond. decider 5 (edge choice at the user's precision): one edge-choice coordinate is a double-double number at relative distance 1e-20..1e-27 above or below an exact cumulative boundary formed from the table's own f64 constants; the L matrix must follow the sector formula along the exact walk. non-trivial = L>=2 (samples), n>=3 (matrices) or E>=3 (edge choice); distinct = distinct case encodings";
+pub const RULE: &str = "decider 1 (taint): the C14 scalar type logs every to_f64 call with its dependency set; with debug output off every narrowed value may depend on nothing but the gamma coordinate 2E-2 (never on another coordinate, never on user masses/shifts) and every value widened back from f64 with dependencies is the gamma variate. decider 2 (precision gain): a double-double scalar (~106 bits) is pushed through the sampler on well-conditioned points and the outputs are checked with exact rational arithmetic at 1e-26*kappa instead of the 1e-13*kappa reachable in f64: u vs det(l_matrix), inverse*L-I, q_transposed*(k+shift) - sqrt(v/2lambda) q, shift vs L^-1 u_vectors, and agreement of u, v, jacobian between two routings of one point; lambda is the documented exception (its low word is 0); the L matrix against the sector formula evaluated in double-double; ill-conditioned points by the precision gain over the f64 run; decider 4: decompose_for_tropical itself on double-double copies of the C15 matrix classes (incl. weakly joined blocks) against exact rational inverse/determinant at 1e-26*cond. decider 6: every Gaussian component of the double-double run against the Box-Muller formula evaluated in double-double with the type's own PI. decider 5 (edge choice at the user's precision): one edge-choice coordinate is a double-double number at relative distance 1e-20..1e-27 above or below an exact cumulative boundary formed from the table's own f64 constants; the L matrix must follow the sector formula along the exact walk. non-trivial = L>=2 (samples), n>=3 (matrices) or E>=3 (edge choice); distinct = distinct case encodings";
 
 pub fn gen_case(t: &mut Tape, tier: Tier) -> Option<c09::Case> {
     let g = gen::gen_phys_graph(t, tier.pick(7, 8), 5, 0.3, 6)?;
@@ -114,6 +114,35 @@ fn dd_d<const D: usize>(s: &SampleGenerator<D>, p: &Phys, ctx: &mut Ctx) -> Resu
     }
     if md.lambda.lo != 0.0 {
         fail!("lambda-not-f64", "lambda = {:?} has a non-zero low word although the gamma draw is documented to be f64", md.lambda);
+    }
+    // decider 6: the Gaussian components against the Box-Muller formula evaluated by the oracle in double-double
+    // (2 pi formed from the type's own PI): an f64 constant or an f64 detour in one branch leaves ~1e-16
+    {
+        let base = 2 * ne - 1;
+        if md.q_vectors.len() != nl {
+            fail!("q-shape", "double-double run: {} Gaussian vectors for {nl} loops", md.q_vectors.len());
+        }
+        for l in 0..nl {
+            for i in 0..D {
+                let n = l * D + i;
+                let jp = n / 2;
+                let (a, b) = (p.x[base + 2 * jp], p.x[base + 2 * jp + 1]);
+                if !(a > 1e-300 && a < 1.0) {
+                    continue;
+                }
+                let r_ = (DD::f(-2.0) * DD::f(a).ln()).sqrt();
+                let th = DD::f(2.0) * DD::PI * DD::f(b);
+                let want = if n % 2 == 0 { r_ * th.cos() } else { r_ * th.sin() };
+                let err = qf(&(md.q_vectors[l][i].q() - want.q()).abs());
+                // conditioning: the angle (up to 2 pi) and the radius enter linearly; the logarithm near a = 1 cancels
+                let cond = 1.0 + 1.0 / (a.ln().abs()).max(1e-300);
+                let t_ = 1e-27 * (r_.hi.abs() * (1.0 + th.hi.abs()) + want.hi.abs()) * cond.min(1e12);
+                ctx.max("dd_box_muller_over_tol", if t_ > 0.0 { err / t_ } else { 0.0 });
+                if !(err <= t_.max(1e-300)) {
+                    fail!("dd-box-muller-precision", "double-double run: Gaussian component {n} (q[{l}][{i}]) differs from the Box-Muller formula evaluated in double-double by {err:e} > {t_:e}: part of it was computed with f64 constants or f64 arithmetic; case {p:?}");
+                }
+            }
+        }
     }
     let lq = mat_q(&md.l_matrix);
     // decider 3: the L matrix against the sector formula evaluated by the oracle in double-double arithmetic
